@@ -23,7 +23,7 @@ def generate(rng, prop, tier):
     ms = []
     for _ in range(n_models):
         if rng.random() < 0.2:
-            ms.append(models.curated(rng.choice(["mass_zva", "cv", "rect", "direct2"])))
+            ms.append(models.curated(rng.choice(["mass_zva", "cv", "rect", "direct2", "landmark"])))
         else:
             ms.append(models.draw(rng, symbol_keys=False, min_sensors=1))
     seeds = [0, rng.choice([1, 2, 4294967295]), rng.randrange(1, 2**32), rng.randrange(1, 2**32)]
